@@ -39,10 +39,30 @@ def flags():
             "dens_report_empty": _flag("FlagsDens", "dens_report_empty")}
 
 
+CHUNK = 1200
+
+
 def correspond_sk(run, n, kind):
-    """history cases of one sketcher kind (or 'all') through the extracted model. returns (cases, codes)"""
+    """history cases of one sketcher kind (or 'all') through the extracted model, in chunks of CHUNK cases so that the
+    decoded wires of a thorough run never sit in memory together (a 10 000-case run held 11 GB). returns (cases, codes);
+    the cases keep the first 400 words of their wire and its length"""
+    all_cases, all_codes = [], []
+    for ci, start in enumerate(range(0, int(n), CHUNK)):
+        cases, codes = _correspond_sk_chunk(run, min(CHUNK, int(n) - start), kind, int(run.seed) + 1000003 * ci)
+        if cases is None:
+            return None, None
+        for c in cases:
+            c["wire_len"] = len(c["wire"])
+            c["wire"] = c["wire"][:400]
+            c["meta"]["case_seed"] = int(run.seed) + 1000003 * ci
+        all_cases += cases
+        all_codes += codes
+    return all_cases, all_codes
+
+
+def _correspond_sk_chunk(run, n, kind, seed):
     fl = flags()
-    args = ["sk-cases", "--seed", run.seed, "--n", n, "--kind", kind, "--hist-by-floor", fl["smh_hist_by_floor"],
+    args = ["sk-cases", "--seed", seed, "--n", n, "--kind", kind, "--hist-by-floor", fl["smh_hist_by_floor"],
             "--tie-on-hash", fl["dens_tie_on_hash"], "--report-empty", fl["dens_report_empty"]]
     rc, js, out, err = vlib.harness(args, timeout=1800)
     if rc != 0 or js is None:
@@ -87,9 +107,9 @@ def report_cases(run, cases, codes, name, rule):
         key = json.dumps(c["wire"][:400])
         if key not in seen:
             seen.add(key)
-            if c["meta"].get("nops", 1) >= 2 and len(c["wire"]) > 60:
+            if c["meta"].get("nops", 1) >= 2 and c.get("wire_len", len(c["wire"])) > 60:
                 nontriv += 1
-    run.add_cases(len(cases), nontriv, [dict(c["meta"], wire_words=len(c["wire"])) for c in cases[:3]], rule=rule,
+    run.add_cases(len(cases), nontriv, [dict(c["meta"], wire_words=c.get("wire_len", len(c["wire"]))) for c in cases[:3]], rule=rule,
                   extra={"kinds": dist, "exhausted_after_retries": len([1 for _, cd in bad if cd == 1])})
     run.oblige("correspondence:" + name, "correspondence", not bad,
                "%d of %d histories differ (1 = data exhausted, 2 = state differs, 3 = model error, -1 = wire); first: %s" % (
